@@ -41,10 +41,12 @@ class ClustererDouble:
         self.n_predict = 0
         self.predict_log = []
         self.script = script  # concrete replay: list of label arrays / K values
+        self.label_of = {}  # predict is a (deterministic) function of the point: one label per distinct point
 
     def fit(self, X, sample_weight=None):
         self.n_fit += 1
         self.fitted = True
+        self.label_of = {}
         if self.script is not None:
             self.K = self.script["K"]
         else:
@@ -56,11 +58,18 @@ class ClustererDouble:
             raise ValueError("Normalization bounds not set. Call fit first." if self.normalize else "model has not been fitted")
         self.n_predict += 1
         n = len(X)
-        if self.script is not None:
+        if self.script is not None and "by_point" in self.script:
+            lab = np.array([self.script["by_point"](X[i]) for i in range(n)], dtype=int)
+        elif self.script is not None:
             lab = np.array(self.script["labels"][self.n_predict - 1][:n], dtype=int)
         else:
-            lab = np.array([integer(self.ctx, f"lab{self.n_predict}_{i}", lo=0, hi=self.K - 1).resolve(0, self.K - 1)
-                            for i in range(n)], dtype=int)
+            lab = []
+            for i in range(n):
+                key = tuple(np.round(np.asarray(X[i], dtype=float), 9).tolist())
+                if key not in self.label_of:
+                    self.label_of[key] = integer(self.ctx, f"lab{self.n_predict}_{i}", lo=0, hi=self.K - 1).resolve(0, self.K - 1)
+                lab.append(self.label_of[key])
+            lab = np.array(lab, dtype=int)
         self.predict_log.append((np.asarray(X, dtype=float).copy(), lab.copy()))
         return lab
 
@@ -95,7 +104,7 @@ def choice_cover(a, size=None, replace=True, p=None):
     return idx if isinstance(a, (int, np.integer)) else np.asarray(a)[idx]
 
 
-POOL_W = {4: [0.4, 0.3, 0.29, 0.01], 5: [0.3, 0.25, 0.24, 0.2, 0.01], 3: [0.5, 0.49, 0.01]}
+POOL_W = {4: [0.34, 0.33, 0.3299, 0.0001], 5: [0.26, 0.25, 0.25, 0.2399, 0.0001], 3: [0.5, 0.4999, 0.0001]}  # the last point is trimmed away
 
 
 def build_state(npool, n_particles, iter_val, d=1):
@@ -190,6 +199,10 @@ def make_pipeline(cluster_every, npool, n_particles, kmax, first_iter_range=(1, 
                     good = False
             ctx.check("mode-was-fitted-on-the-particles-of-that-cluster", z3.BoolVal(bool(good)),
                       detail={"assignments": assign, "training_labels": lab_train.tolist()})
+        # each active particle carries the label the model predicts for *its own* position
+        own = [clusterer.label_of.get(tuple(np.round(np.asarray(st._current["u"][k], dtype=float), 9).tolist())) for k in range(len(raw))]
+        ctx.check("assignment-is-the-predicted-label-of-that-particle", z3.BoolVal(all(o is not None and o == r for o, r in zip(own, raw))),
+                  detail={"raw": raw, "predicted_for_own_position": own})
         dof_ok = bool(np.all(np.isfinite(ms.degrees_of_freedom)) and np.all(ms.degrees_of_freedom > 0))
         ctx.check("dof-finite-and-positive", z3.BoolVal(dof_ok))
         spd = all(np.allclose(c, c.T) and np.all(np.linalg.eigvalsh(c) > 0) for c in ms.covariances)
@@ -220,47 +233,45 @@ def make_pipeline(cluster_every, npool, n_particles, kmax, first_iter_range=(1, 
                 np.random.set_state(s0)
             return {"reproduced": err is not None and "fit" in str(err), "signature": "cadence:predict-before-fit",
                     "payload": {"cluster_every": cluster_every}, "what": f"Sampler(clustering=True, cluster_every={cluster_every}).sample() raised: {err}"}
-        # label clause: real Trainer / Resampler / ModeStatistics / kernel with a scripted clusterer
-        K = int(m.get("K1", 1))
-        labels = []
-        p = 1
-        while f"lab{p}_0" in m:
-            row, i = [], 0
-            while f"lab{p}_{i}" in m:
-                row.append(int(m[f"lab{p}_{i}"]))
-                i += 1
-            labels.append(row + [row[-1]] * 8)
-            p += 1
-        ridx = [int(m[f"ridx{j}"]) for j in range(n_particles) if f"ridx{j}" in m]
-        clusterer = ClustererDouble(None, kmax, script={"K": K, "labels": labels})
-        inf = [bool(m.get(f"dof_inf{j}", False)) for j in range(8)]
-        fitd = FitDouble(None, inf_dof=inf)
-        st, u, ms, assign, raw = run(None, iter_val if iter_val % cluster_every == 0 else cluster_every, clusterer, fitd,
-                                     lambda a, size: np.array([int(a[i]) for i in ridx[: int(size)]], dtype=int))
-        why = None
-        try:
-            s0 = np.random.get_state()
-            np.random.seed(1)
-            mcmc.parallel_mcmc(u=st.get_current("u"), x=st.get_current("x"), logl=st.get_current("logl"), blobs=None,
-                               assignments=assign, beta=0.5, mode_stats=ms, log_likelihood=lambda x: (-np.sum(x ** 2, axis=1), None),
-                               prior_transform=lambda uu: uu, n_steps=1, n_max=1, sample="tpcn", verbose=False)
-            np.random.set_state(s0)
-        except IndexError as e:
-            why = f"kernel raised IndexError: {e}"
-        X_train, lab_train = clusterer.predict_log[0]
-        if why is None:
-            for a, r in zip(assign, raw):
-                mem = frozenset(np.round(X_train[lab_train == r, 0], 9).tolist())
-                if not (0 <= a < ms.K):
-                    why = f"assignment {a} has no mode (K={ms.K})"
-                elif mem and fitd.fits[a] != mem:
-                    why = f"a particle of cluster {r} is moved with a mode fitted on the particles of another cluster"
-        if why is None and label == "dof-finite-and-positive":
-            why = None if np.all(np.isfinite(ms.degrees_of_freedom)) else "non-finite dof reached the kernel"
-        return {"reproduced": why is not None, "signature": "labels:rank-vs-raw-label",
-                "payload": {"training_labels": lab_train.tolist(), "assignments": np.asarray(assign).tolist(), "n_modes": int(ms.K)},
-                "what": f"training labels {lab_train.tolist()} (K={K} fitted clusters), active assignments {np.asarray(assign).tolist()}, "
-                        f"{int(ms.K)} modes: {why}"}
+        # label clauses: real Trainer / Resampler / Mutator / ModeStatistics / kernel with scripted *functional* clusterers
+        scenarios = {
+            "two-clusters-unsorted-duplicates": (lambda x: int(float(np.asarray(x).ravel()[0]) > 0.5), lambda a, size: [int(a[-1]), int(a[0]), int(a[-1]), int(a[1])]),
+            "only-label-1-occurs": (lambda x: 1, lambda a, size: [int(a[0]), int(a[1]), int(a[0]), int(a[1])]),
+            "cluster-without-training-points": (lambda x: int(float(np.asarray(x).ravel()[0]) > 0.79), lambda a, size: [int(a[-1]), int(a[0]), int(a[-1]), int(a[0])]),
+        }
+        problems = []
+        for name, (by_point, pick) in scenarios.items():
+            c2 = ClustererDouble(None, kmax, script={"K": 2, "by_point": by_point})
+            f2 = FitDouble(None, inf_dof=[bool(m.get(f"dof_inf{j}", False)) for j in range(8)])
+            try:
+                st2, u2, ms2, a2, raw2 = run(None, cluster_every, c2, f2, lambda a, size, pick=pick: np.array(pick(a, size)[: int(size)], dtype=int))
+            except Exception as e:
+                problems.append((name, f"pipeline raised {type(e).__name__}: {e}"))
+                continue
+            own = [by_point(v) for v in st2.get_current("u")]
+            if list(map(int, raw2)) != own:
+                problems.append((name, f"assignments {list(map(int, raw2))} are not the labels {own} predicted for those particles"))
+            X_train, lab_train = c2.predict_log[0]
+            for a_, r_ in zip(a2, raw2):
+                mem = frozenset(np.round(X_train[lab_train == r_, 0], 9).tolist())
+                if not (0 <= a_ < ms2.K):
+                    problems.append((name, f"assignment {int(a_)} has no mode (K={ms2.K})"))
+                elif mem and f2.fits[int(a_)] != mem:
+                    problems.append((name, f"a particle of cluster {int(r_)} is moved with a mode fitted on another cluster"))
+            if not (np.all(np.isfinite(ms2.degrees_of_freedom)) and np.all(ms2.degrees_of_freedom > 0)):
+                problems.append((name, "non-finite dof reached the kernel"))
+            try:
+                s0 = np.random.get_state()
+                np.random.seed(1)
+                mcmc.parallel_mcmc(u=st2.get_current("u"), x=st2.get_current("x"), logl=st2.get_current("logl"), blobs=None, assignments=np.asarray(a2),
+                                   beta=0.5, mode_stats=ms2, log_likelihood=lambda x: (-np.sum(x ** 2, axis=1), None), prior_transform=lambda uu: uu,
+                                   n_steps=1, n_max=1, sample="tpcn", verbose=False)
+                np.random.set_state(s0)
+            except IndexError as e:
+                problems.append((name, f"kernel raised IndexError: {e}"))
+        return {"reproduced": bool(problems), "signature": "labels:" + (problems[0][1].split(" ")[0] + "-" + problems[0][0] if problems else label),
+                "payload": {"problems": problems[:6]},
+                "what": "real Trainer/Resampler/Mutator with a scripted functional clusterer: " + "; ".join(f"[{n_}] {w_}" for n_, w_ in problems[:3])}
 
     return Obligation(f"pipeline-every{cluster_every}-pool{npool}-n{n_particles}-K{kmax}", harness, replay=replay,
                       encodes=[train_mod.Trainer.run, resample_mod.Resampler.run, ModeStatistics.from_particles, ModeStatistics.__init__],
